@@ -207,7 +207,7 @@ def main(argv=None):
     twin_ok = None
     if not args.no_twin and plan:
         item = plan[0]
-        cfg = dict(item.get('cfg', {}), property=prop, seed=seed, twin=True, max_paths=6)
+        cfg = dict(item.get('cfg', {}), property=prop, seed=seed, twin=True, max_paths=80)
         agg = driver.explore(harness_mod, item['fn'], cfg, depth=4, workers=args.workers,
                              budget_s=60, root_paths=(REPO, HERE))
         twin_ok = False
